@@ -308,6 +308,7 @@ pub fn run(sc: &Scenario, opts: &RunOptions) -> RunRecord {
         short_write_permille: sc.knobs.short_write_permille,
         seed: sc.schedule.seed,
         keep_events: opts.keep_events,
+        workers: sc.knobs.workers,
     };
     let mut sim = Sim::start(cfg, server_main());
     let mut rng = Rng::derive(sc.schedule.seed, "schedule");
